@@ -26,6 +26,9 @@
 //!   c01-lb-underfull  a leaf below LEAF_MERGE_THRESHOLD that is not the rightmost leaf (cutoff None,
 //!                     last leaf of its digest), or an empty leaf
 //!   c01-lb-panic      the real updater / builder panicked on a valid input
+//!   c01-lb-model      the leaves, the NeedsMerge results or the cells carried over differ from what the
+//!                     extracted Coq mirror LeafBuild.run_stages predicts for the item (`lbmodel`): the
+//!                     mirror is the function the theorems of LeafBuild_proofs.v are about
 //!
 //! Item line (= replay file):
 //!   lb1 sep=<key> base=<key>:<val>,..|-|rc ops=<key>:<val|d>,.. cutoff=<key|-> | <stage> | .. [; chain=<seed>,..]
@@ -34,7 +37,7 @@
 use crate::json::J;
 use crate::model::Model;
 use crate::util::{get_bit, hex, key_from_hex, set_bit, unhex, value_bytes, Key, Rng};
-use nomt::verif_api::{leaf_constants, leaf_rebuild_stages, VerifLeafOp, VerifLeafStage};
+use nomt::verif_api::{leaf_constants, leaf_rebuild_stages, VerifLeafOp, VerifLeafRebuild, VerifLeafStage};
 use std::collections::{BTreeMap, BTreeSet, HashMap};
 use std::panic::{catch_unwind, AssertUnwindSafe};
 use std::sync::{Arc, Mutex};
@@ -817,6 +820,11 @@ pub struct LbStats {
     pub base_full: u64,
     pub vclass: [u64; 6],
     pub real_panics: u64,
+    pub model_rounds: u64,
+    pub model_rounds_wf: u64,
+    pub model_leaves: u64,
+    pub model_pending: u64,
+    pub model_us: u64,
 }
 
 impl LbStats {
@@ -826,7 +834,7 @@ impl LbStats {
             rounds, stages, stages_no_base, stages_remove_cutoff, leaves, cells, leaves_full, leaves_within_8, leaves_100_cells, leaves_with_overflow, leaves_single,
             leaves_rightmost_underfull, leaves_below_split_target, digest_three_no_bulk, separators_full_length, small_base_not_last, digest_one_leaf, digest_two_leaves, digest_three_leaves, digest_more_leaves, digest_bulk,
             digest_split_then_merge, digest_size_on_threshold, needs_merge, merge_chains, merged_leaf_built, pending_at_end, inserts, overwrites, deletes, absent_deletes,
-            overflow_released, zero_key, ones_key, base_full, real_panics
+            overflow_released, zero_key, ones_key, base_full, real_panics, model_rounds, model_rounds_wf, model_leaves, model_pending, model_us
         );
         self.max_body = self.max_body.max(o.max_body);
         self.max_cells = self.max_cells.max(o.max_cells);
@@ -886,6 +894,11 @@ impl LbStats {
                 ]),
             ),
             ("real_panics", i(self.real_panics)),
+            ("rounds_compared_with_the_coq_mirror", i(self.model_rounds)),
+            ("rounds_satisfying_stages_wf", i(self.model_rounds_wf)),
+            ("leaves_equal_to_the_mirrors_prediction", i(self.model_leaves)),
+            ("carried_over_cell_lists_equal_to_the_mirrors_prediction", i(self.model_pending)),
+            ("cpu_ms_spent_in_the_mirror_all_threads", i(self.model_us / 1000)),
         ])
     }
 }
@@ -940,6 +953,164 @@ enum Carry {
     None,
     Exact(Key),
     Ranged,
+}
+
+/// the extracted Coq mirror (LeafBuild.run_stages) on the stages of the round against what the real
+/// updater did: leaves (stage, separator, cutoff, gauge, builder size, the cells), NeedsMerge and the
+/// gauge left per stage, the cells carried over and their separator
+fn model_round(model: &mut Model, stages: &[RStage], real: &VerifLeafRebuild, dcells: &[Option<Vec<Cell>>], out: &mut Outcome) {
+    let mut ids: HashMap<(Key, Vec<u8>, bool), u64> = HashMap::new();
+    let mut id_of = |k: &Key, v: &Vec<u8>, o: bool| -> u64 {
+        let n = ids.len() as u64 + 1;
+        *ids.entry((*k, v.clone(), o)).or_insert(n)
+    };
+    let mut cmd = String::from("lbmodel");
+    for s in stages {
+        let base = if s.rc {
+            "rc".to_string()
+        } else {
+            match &s.base {
+                None => "-".to_string(),
+                Some(cells) if cells.is_empty() => "empty".to_string(),
+                Some(cells) => cells.iter().map(|(k, v, o)| format!("{}:{}:{}", kh(k), v.len(), id_of(k, v, *o))).collect::<Vec<_>>().join(","),
+            }
+        };
+        let ops = s
+            .ops
+            .iter()
+            .map(|(k, v)| match v {
+                Some((b, o)) => format!("{}:{}:{}", kh(k), b.len(), id_of(k, b, *o)),
+                None => format!("{}:d", kh(k)),
+            })
+            .collect::<Vec<_>>()
+            .join(",");
+        cmd += &format!(" S;{};{};{};{}", kh(&s.sep), base, s.cutoff.map(|k| kh(&k)).unwrap_or_else(|| "-".into()), ops);
+    }
+    let t_model = std::time::Instant::now();
+    let reply = model.ask_multi(&cmd);
+    out.stats.model_us += t_model.elapsed().as_micros() as u64;
+    out.stats.model_rounds += 1;
+    let mut viol = |kind: &str, detail: String| out.viol.push(("c01-lb-model".into(), kind.into(), detail));
+    let okey = |k: &Option<Key>| k.map(|k| kh(&k)).unwrap_or_else(|| "-".into());
+    let ids_of = |cells: &[Cell], ids: &HashMap<(Key, Vec<u8>, bool), u64>| -> Vec<u64> { cells.iter().map(|c| ids.get(&(c.0, c.1.clone(), c.2)).cloned().unwrap_or(0)).collect() };
+    let mut n_leaves = 0usize;
+    let mut n_stages = 0usize;
+    let mut leaves_ok = 0u64;
+    let mut pending_ok = 0u64;
+    let mut wf = false;
+    let mut leaf_fields_ok: Vec<bool> = Vec::new();
+    for l in &reply {
+        let t: Vec<&str> = l.split(' ').collect();
+        match t[0] {
+            "const" => {
+                let c: Vec<usize> = t[1..].iter().map(|x| x.parse().unwrap()).collect();
+                if c != [BODY, MAXV, MERGE, BULK, BULK_TARGET] {
+                    viol("constants", format!("the mirror's constants {:?} differ from the real ones", c));
+                }
+            }
+            "wf" => wf = t[1] == "1",
+            "panic" => viol("mirror-panic", "the mirror's updater panics on an input the real updater handled".into()),
+            "stage" => {
+                let i: usize = t[1].parse().unwrap();
+                n_stages += 1;
+                match real.stages.get(i) {
+                    None => viol("stage-count", format!("the mirror ran stage {}, the real updater {} stages", i, real.stages.len())),
+                    Some(r) => {
+                        if okey(&r.needs_merge) != t[2] {
+                            viol("needs-merge", format!("stage {}: the real digest returned NeedsMerge {}, the mirror {}", i, okey(&r.needs_merge), t[2]));
+                        }
+                        if r.gauge_left.to_string() != t[3] {
+                            viol("gauge-left", format!("stage {}: the real gauge is left at {}, the mirror's at {}", i, r.gauge_left, t[3]));
+                        }
+                    }
+                }
+            }
+            "leaf" => {
+                let j: usize = t[1].parse().unwrap();
+                n_leaves += 1;
+                let mut ok = false;
+                match real.built.get(j) {
+                    None => {
+                        if j == real.built.len() {
+                            viol("leaf-count", format!("the mirror predicts more than the {} leaves the real updater built; leaf {}: stage {} separator {} cells {} body {}", real.built.len(), j, t[2], t[3], t[8], t[9]));
+                        }
+                    }
+                    Some(b) => {
+                        let n: usize = t[6].parse().unwrap();
+                        let vs: usize = t[7].parse().unwrap();
+                        let mut diffs: Vec<String> = Vec::new();
+                        if b.stage.to_string() != t[2] {
+                            diffs.push(format!("stage {} / {}", b.stage, t[2]));
+                        }
+                        if kh(&b.separator) != t[3] {
+                            diffs.push(format!("separator {} / {}", kh(&b.separator), t[3]));
+                        }
+                        if okey(&b.cutoff) != t[4] {
+                            diffs.push(format!("cutoff {} / {}", okey(&b.cutoff), t[4]));
+                        }
+                        if b.gauge_body_size.to_string() != t[5] {
+                            diffs.push(format!("gauge {} / {}", b.gauge_body_size, t[5]));
+                        }
+                        if b.builder_body_size != 34 * n + vs {
+                            diffs.push(format!("builder sized for {} / {}", b.builder_body_size, 34 * n + vs));
+                        }
+                        if let Some(Some(cells)) = dcells.get(j) {
+                            if cells.len().to_string() != t[8] || body_of(cells).to_string() != t[9] {
+                                diffs.push(format!("{} cells with a body of {} / {} cells, {}", cells.len(), body_of(cells), t[8], t[9]));
+                            }
+                            if cells.first().map(|c| kh(&c.0)).unwrap_or_else(|| "-".into()) != t[10] || cells.last().map(|c| kh(&c.0)).unwrap_or_else(|| "-".into()) != t[11] {
+                                diffs.push(format!("first / last key differ, the mirror has {} .. {}", t[10], t[11]));
+                            }
+                        }
+                        if diffs.is_empty() {
+                            ok = true;
+                        } else {
+                            viol("leaf", format!("leaf {} (real / mirror): {}", j, diffs.join("; ")));
+                        }
+                    }
+                }
+                leaf_fields_ok.push(ok);
+            }
+            "ids" => {
+                let j: usize = t[1].parse().unwrap();
+                if let Some(Some(cells)) = dcells.get(j) {
+                    let got = ids_of(cells, &ids);
+                    let want: Vec<u64> = t[2..].iter().filter(|x| !x.is_empty()).map(|x| x.parse().unwrap()).collect();
+                    if got != want {
+                        let first = got.iter().zip(want.iter()).position(|(a, b)| a != b).unwrap_or(got.len().min(want.len()));
+                        viol("leaf-cells", format!("leaf {}: the page holds {} cells, the mirror predicts {}; first difference at cell {}", j, got.len(), want.len(), first));
+                    } else if leaf_fields_ok.get(j).cloned().unwrap_or(false) {
+                        leaves_ok += 1;
+                    }
+                }
+            }
+            "pending" => {
+                let got = ids_of(&real.pending, &ids);
+                let want: Vec<u64> = t[4..].iter().filter(|x| !x.is_empty()).map(|x| x.parse().unwrap()).collect();
+                if got != want {
+                    viol("pending", format!("{} cells are left in the real updater, the mirror predicts {}", got.len(), want.len()));
+                } else if okey(&real.pending_separator) != t[1] {
+                    viol("pending-separator", format!("the separator override left in the real updater is {}, the mirror's {}", okey(&real.pending_separator), t[1]));
+                } else {
+                    pending_ok += 1;
+                }
+            }
+            _ => {}
+        }
+    }
+    if !reply.iter().any(|l| l == "panic") {
+        if n_leaves != real.built.len() {
+            viol("leaf-count", format!("the real updater built {} leaves, the mirror predicts {}", real.built.len(), n_leaves));
+        }
+        if n_stages != real.stages.len() {
+            viol("stage-count", format!("the real updater ran {} stages, the mirror {}", real.stages.len(), n_stages));
+        }
+    }
+    out.stats.model_leaves += leaves_ok;
+    out.stats.model_pending += pending_ok;
+    if wf {
+        out.stats.model_rounds_wf += 1;
+    }
 }
 
 /// one round: the real updater and the checks.  Returns the decoded leaves and the cutoff behind the
@@ -1076,6 +1247,7 @@ fn run_round(model: &mut Model, stages: &[RStage], out: &mut Outcome) -> Option<
     let mut all_decoded = true;
     let mut per_stage: Vec<usize> = vec![0; stages.len()];
     let mut bodies: Vec<Option<usize>> = vec![None; n_built];
+    let mut dcells: Vec<Option<Vec<Cell>>> = vec![None; n_built];
     for b in &real.built {
         per_stage[b.stage] += 1;
     }
@@ -1199,8 +1371,11 @@ fn run_round(model: &mut Model, stages: &[RStage], out: &mut Outcome) -> Option<
         if j > 0 && real.built[j - 1].stage == b.stage && b.separator[31] & 1 == 1 {
             st.separators_full_length += 1;
         }
+        dcells[j] = Some(cells.clone());
         dleaves.push(DLeaf { sep: b.separator, cells });
     }
+    // the Coq mirror's prediction
+    model_round(model, stages, &real, &dcells, out);
     // per digest: how many leaves, which path
     {
         let mut pending_before: usize = 0;
@@ -1584,7 +1759,7 @@ pub fn cmd_lb(kv: &HashMap<String, String>) -> i32 {
         ("evaluations", J::Int(results.len() as i64)),
         ("corpus_cases", J::Int(n_corpus as i64)),
         ("distinct_nontrivial", J::Int(distinct.len().min(nontrivial) as i64)),
-        ("rule", J::s("one evaluation = one generated item (1-6 stages of base leaf + ingested operations, then 0-2 further rounds on the leaves just built) run through the real LeafUpdater (hook H5), every built page decoded by the extracted Image.decode_leaf, re-encoded by NodeCodec and range-checked by Image.leaf_in_range; expected content computed from the item alone; non-trivial = some stage has operations and a leaf was built; distinct = distinct item line")),
+        ("rule", J::s("one evaluation = one generated item (1-6 stages of base leaf + ingested operations, then 0-2 further rounds on the leaves just built) run through the real LeafUpdater (hook H5), every built page decoded by the extracted Image.decode_leaf, re-encoded by NodeCodec and range-checked by Image.leaf_in_range; expected content computed from the item alone; every round also evaluated by the extracted Coq mirror LeafBuild.run_stages (lbmodel) and compared leaf by leaf (stage, separator, cutoff, gauge, builder size, cells), NeedsMerge / gauge left per stage, carried-over cells and separator override; non-trivial = some stage has operations and a leaf was built; distinct = distinct item line")),
         ("violations_by_sig", J::Obj(by_sig.iter().map(|(k, v)| (k.clone(), J::Int(*v as i64))).collect())),
         ("stats", total.json()),
         ("samples", J::Arr(samples)),
